@@ -5,6 +5,8 @@ import (
 	"fmt"
 	"math/big"
 	"math/rand"
+	"strings"
+	"sync"
 
 	ige "github.com/xelaj/mtproto/internal/aes_ige"
 	"github.com/xelaj/mtproto/zverif/ref/mtp"
@@ -116,6 +118,114 @@ func c05(c *wk.Ctx) {
 			idx++
 		}
 	}
+	// ---- 5. the caller reuses its own buffers: the same key/iv/data/out slices, new contents every round
+	for k := 0; k < c.Pick(16, 200); k++ {
+		if c.Mine(idx) {
+			r := c.Rand(idx)
+			c.Begin(idx, "ige reused caller buffers")
+			key, iv := make([]byte, 32), make([]byte, 32)
+			data, out := make([]byte, 16*8), make([]byte, 16*8)
+			for round := 0; round < 24; round++ {
+				switch r.Intn(4) { // which of the buffers get new contents this round
+				case 0:
+					r.Read(key)
+				case 1:
+					r.Read(iv)
+				case 2:
+					r.Read(key)
+					r.Read(iv)
+				}
+				r.Read(data)
+				nb := 1 + r.Intn(8)
+				want, _ := mtp.IGEEncrypt(key, iv, data[:nb*16])
+				var err error
+				pan, msg, st := wk.Guard(func() { err = ige.VerifIGE(true, data[:nb*16], out[:nb*16], key, iv) })
+				c.Count("evaluations", 1)
+				if pan || err != nil {
+					c.Viol("C05", idx, "reuse/panic-or-error/"+st, fmt.Sprint(msg, err), round)
+					break
+				}
+				if !bytes.Equal(out[:nb*16], want) {
+					c.Viol("C05", idx, "reuse/encrypt-mismatch", fmt.Sprintf("round %d with the caller's key/iv buffers refilled in place: ciphertext is not IGE(key, iv, data); key=%x iv=%x", round, key, iv), fmt.Sprintf("%x", data[:nb*16]))
+					break
+				}
+				back := make([]byte, nb*16)
+				pan, msg, st = wk.Guard(func() { err = ige.VerifIGE(false, want, back, key, iv) })
+				if pan || err != nil || !bytes.Equal(back, data[:nb*16]) {
+					c.Viol("C05", idx, "reuse/decrypt-mismatch", fmt.Sprintf("round %d: %v %v", round, msg, err), nil)
+					break
+				}
+			}
+			c.Distinct("reuse", k)
+		}
+		idx++
+	}
+	// ---- 6. several goroutines at once, each with its own keys (send and receive paths run concurrently)
+	for k := 0; k < c.Pick(6, 60); k++ {
+		if c.Mine(idx) {
+			c.Begin(idx, "ige concurrent")
+			res := concurrently(8, int64(idx), func(g int, r *rand.Rand) string {
+				for it := 0; it < 300; it++ {
+					key, iv := rbytes(r, 32), rbytes(r, 32)
+					data := rbytes(r, 16*(1+r.Intn(6)))
+					want, _ := mtp.IGEEncrypt(key, iv, data)
+					out := make([]byte, len(data))
+					if err := ige.VerifIGE(true, data, out, key, iv); err != nil || !bytes.Equal(out, want) {
+						return fmt.Sprintf("encrypt-mismatch: goroutine %d iteration %d err=%v", g, it, err)
+					}
+					ak, msg := rbytes(r, 256), rbytes(r, 1+r.Intn(200))
+					ct, err := ige.Encrypt(msg, ak)
+					if err != nil {
+						return "wrap-error: " + err.Error()
+					}
+					kk, ii := mtp.KDF(ak, mtp.MsgKey(msg), 0)
+					pl, derr := mtp.IGEDecrypt(kk, ii, ct)
+					if derr != nil || len(pl) < len(msg) || !bytes.Equal(pl[:len(msg)], msg) {
+						return fmt.Sprintf("wrap-not-openable: goroutine %d iteration %d", g, it)
+					}
+					nn, sn := rbytes(r, 32), rbytes(r, 16)
+					tk, tiv := ige.VerifTempKeys(new(big.Int).SetBytes(nn), new(big.Int).SetBytes(sn))
+					rk, riv := mtp.TempKeys(nn, sn)
+					if !bytes.Equal(tk, rk) || !bytes.Equal(tiv, riv) {
+						return fmt.Sprintf("temp-keys-mismatch: goroutine %d iteration %d", g, it)
+					}
+				}
+				return ""
+			})
+			c.Count("evaluations", 8*300*3)
+			for _, s := range res {
+				if s != "" {
+					c.Viol("C05", idx, "concurrent/"+strings.SplitN(s, ":", 2)[0], "8 goroutines with keys of their own: "+s, nil)
+				}
+			}
+			c.Distinct("concurrent", k)
+		}
+		idx++
+	}
+}
+
+// concurrently runs f in n goroutines released together; a panic inside one is its result.
+func concurrently(n int, seed int64, f func(g int, r *rand.Rand) string) []string {
+	res := make([]string, n)
+	start := make(chan struct{})
+	var wg sync.WaitGroup
+	for g := 0; g < n; g++ {
+		wg.Add(1)
+		go func(g int) {
+			defer wg.Done()
+			defer func() {
+				if p := recover(); p != nil {
+					res[g] = fmt.Sprintf("panic: %v", p)
+				}
+			}()
+			r := rand.New(rand.NewSource(seed*1009 + int64(g)))
+			<-start
+			res[g] = f(g, r)
+		}(g)
+	}
+	close(start)
+	wg.Wait()
+	return res
 }
 
 func c05ige(c *wk.Ctx, idx int, key, iv, data []byte, shape string) {
